@@ -409,6 +409,147 @@ fn mismatch_case(m: &Mismatch) -> Value {
     json!({"kind":"sched","scripts": m.scripts, "script_names": m.scripts.iter().map(|&i| OPS[i]).collect::<Vec<_>>(), "steps": m.steps, "thread": m.thread, "interleaving": m.interleaving, "expected": m.expected, "observed": m.observed})
 }
 
+/// History pass: queries issued one after the other against ONE shared cache / mapper, by one thread and by two
+/// OS threads taking turns (barrier-forced order); every answer must be what the query returns alone (known by
+/// construction). The mappings are chosen so that state kept between calls has something to confuse:
+/// (a) class names colliding under common 32-bit fingerprints, (b) more than 65536 classes (indices 2^16 apart).
+fn history_pass(acc: &mut Acc) {
+    // (a) collisions
+    let pairs = crate::families::collision_pairs();
+    let mut text = String::new();
+    for (k, (_, a, b)) in pairs.iter().enumerate() {
+        text.push_str(&format!("x.A{} -> {}:\n    1:2:void one{}():3:4 -> m\n", k, a, k));
+        text.push_str(&format!("x.B{} -> {}:\n    void two{}() -> m\n    void extra() -> m\n", k, b, k));
+    }
+    let bytes: &'static [u8] = crate::ast::leak_bytes(text.as_bytes());
+    let mapper = cur::ProguardMapper::new(cur::ProguardMapping::new(bytes));
+    let buf: &'static Aligned = Box::leak(Box::new(Aligned::new(&cur::write_cache(bytes).expect("write"))));
+    let cache = cur::ProguardCache::parse(buf.as_slice()).expect("parse");
+    struct Force<T>(T);
+    unsafe impl<T> Sync for Force<T> {}
+    let shared = Force((&mapper, &cache));
+    // queries for the two names of pair k in the given order; expectations are attached to the NAME, not the position
+    let check_pair = |k: usize, a: &str, b: &str, a_first: bool, who: &str, acc: &mut Acc| {
+        let (m, c) = shared.0;
+        let info = |is_a: bool| -> (&str, String, usize, Option<String>) {
+            if is_a {
+                (a, format!("x.A{}", k), 1, Some(format!("one{}", k)))
+            } else {
+                (b, format!("x.B{}", k), 2, None)
+            }
+        };
+        let order = if a_first { [true, false, true] } else { [false, true, false] };
+        for is_a in order {
+            let (name, cls, nframes, meth) = info(is_a);
+            let f = cur::StackFrame::new(name, "m", 1);
+            let obs: [(Option<String>, Option<String>, &str); 6] = [
+                (c.remap_class(name).map(|s| s.to_string()), Some(cls.clone()), "cache.remap_class"),
+                (m.remap_class(name).map(|s| s.to_string()), Some(cls.clone()), "mapper.remap_class"),
+                (Some(c.remap_frame(&f).count().to_string()), Some(nframes.to_string()), "cache.remap_frame"),
+                (Some(m.remap_frame(&f).count().to_string()), Some(nframes.to_string()), "mapper.remap_frame"),
+                (c.remap_method(name, "m").map(|x| x.1.to_string()), meth.clone(), "cache.remap_method"),
+                (m.remap_method(name, "m").map(|x| x.1.to_string()), meth.clone(), "mapper.remap_method"),
+            ];
+            acc.observations += obs.len() as u64;
+            acc.transitions += obs.len() as u64;
+            for (got, exp, what) in obs {
+                if got != exp {
+                    acc.violation(format!("history:{}", what), 2, || (format!("{}: {}({:?}) issued next to queries for its colliding partner ({:?} / {:?}) answered {:?}, alone it answers {:?}", who, what, name, a, b, got, exp), json!({"kind":"history"})));
+                }
+            }
+        }
+    };
+    for (k, (_, a, b)) in pairs.iter().enumerate() {
+        acc.states += 1;
+        check_pair(k, a, b, true, "one thread", acc);
+        check_pair(k, a, b, false, "one thread (reverse order)", acc);
+    }
+    // two OS threads taking turns on the same objects: T1 asks for A, then T2 asks for B, then T1 for A again ...
+    let bad: Mutex<Vec<String>> = Mutex::new(Vec::new());
+    let barrier = std::sync::Barrier::new(2);
+    std::thread::scope(|s| {
+        for t in 0..2usize {
+            let (shared, pairs, barrier, bad) = (&shared, pairs, &barrier, &bad);
+            s.spawn(move || {
+                let (m, c) = shared.0;
+                for (k, (_, a, b)) in pairs.iter().enumerate() {
+                    for round in 0..4usize {
+                        barrier.wait();
+                        if round % 2 == t {
+                            let (name, exp) = if t == 0 { (a, format!("x.A{}", k)) } else { (b, format!("x.B{}", k)) };
+                            let got_c = c.remap_class(name).map(|s| s.to_string());
+                            let got_m = m.remap_class(name).map(|s| s.to_string());
+                            if got_c.as_deref() != Some(&exp) || got_m.as_deref() != Some(&exp) {
+                                bad.lock().unwrap().push(format!("thread {} asked for {:?} right after the other thread asked for its colliding partner: cache {:?} mapper {:?}, expected {:?}", t, name, got_c, got_m, exp));
+                            }
+                        }
+                    }
+                }
+            });
+        }
+    });
+    for d in bad.lock().unwrap().iter().take(3) {
+        acc.violation("history:two-threads-taking-turns", 2, || (d.clone(), json!({"kind":"history"})));
+    }
+    acc.count("history pass: colliding name pairs", pairs.len() as u64);
+    // (b) more than 65536 classes; class k has method `a` with 1 + ((k >> 16) + k) % 2 mapping lines, so that
+    //     classes 65535 and 65536 positions apart differ in the number of lines
+    let n = 70_000usize;
+    let mut text = String::with_capacity(n * 80);
+    for k in 0..n {
+        text.push_str(&format!("p.C{} -> c{:05}:\n    1:1:void a():5 -> a\n", k, k));
+        if ((k >> 16) + k) % 2 == 1 {
+            text.push_str("    1:1:void b():6 -> a\n");
+        }
+    }
+    let bytes: &'static [u8] = crate::ast::leak_bytes(text.as_bytes());
+    let mapper = cur::ProguardMapper::new(cur::ProguardMapping::new(bytes));
+    let buf: &'static Aligned = Box::leak(Box::new(Aligned::new(&cur::write_cache(bytes).expect("write"))));
+    let cache = cur::ProguardCache::parse(buf.as_slice()).expect("parse");
+    let mut wrong = 0u64;
+    let mut first: Option<String> = None;
+    for k in 0..(n - 65535) {
+        for (i, j) in [(k, k + 65535), (k + 65535, k)] {
+            for idx in [i, j] {
+                let name = format!("c{:05}", idx);
+                let f = cur::StackFrame::new(&name, "a", 1);
+                let exp = ((idx >> 16) + idx) % 2 + 1;
+                let (gc, gm) = (cache.remap_frame(&f).count(), mapper.remap_frame(&f).count());
+                let oc = cache.remap_class(&name).map(|s| s.to_string());
+                acc.observations += 3;
+                if gc != exp || gm != exp || oc != Some(format!("p.C{}", idx)) {
+                    wrong += 1;
+                    if first.is_none() {
+                        first = Some(format!("class {} (queried next to class index {} +- 65535): cache {} frames, mapper {} frames, expected {}; remap_class {:?}", name, if idx == i { j } else { i }, gc, gm, exp, oc));
+                    }
+                }
+            }
+        }
+    }
+    // the same with a stride of exactly 65536
+    for k in 0..(n - 65536) {
+        for idx in [k, k + 65536, k] {
+            let name = format!("c{:05}", idx);
+            let f = cur::StackFrame::new(&name, "a", 1);
+            let exp = ((idx >> 16) + idx) % 2 + 1;
+            let gc = cache.remap_frame(&f).count();
+            acc.observations += 1;
+            if gc != exp {
+                wrong += 1;
+                if first.is_none() {
+                    first = Some(format!("class {} queried right after the class 65536 positions away: cache {} frames, expected {}", name, gc, exp));
+                }
+            }
+        }
+    }
+    acc.states += 1;
+    acc.transitions += 4 * n as u64;
+    acc.count("history pass: classes in the large mapping", n as u64);
+    if let Some(d) = first {
+        acc.violation("history:large-mapping", 3, || (format!("{} ({} wrong answers)", d, wrong), json!({"kind":"history"})));
+    }
+}
+
 fn source_scan() -> Vec<String> {
     let mut out = Vec::new();
     let mut stack = vec![std::path::PathBuf::from("/repo/src")];
@@ -525,6 +666,17 @@ pub fn run(tier: Tier) -> i32 {
         }
     });
     acc.merge(sub);
+    // (2b) history pass
+    if !gate_failed {
+        match guarded(|| {
+            let mut a = Acc::new();
+            history_pass(&mut a);
+            a
+        }) {
+            Ok(a) => acc.merge(a),
+            Err(p) => acc.violation(format!("panic:{}", panic_site(&p)), 0, || (format!("panic in the history pass: {}", p), json!({"kind":"history"}))),
+        }
+    }
     // (3) free-running pass (sampling; labelled; never deciding)
     let sh: &'static Shared = Box::leak(Box::new(build_shared()));
     let mut free_runs = 0u64;
@@ -564,7 +716,7 @@ pub fn run(tier: Tier) -> i32 {
         prop: "C20",
         tier,
         level: "model_checking",
-        rule: format!("type gate: Send and Sync of {} public handle / iterator / result types (run-time evaluated auto-trait table). Schedules: every configuration is explored twice, each time in a pristine subprocess: by shuttle's exhaustive DFS (tasks under shuttle's scheduler) and by a baton scheduler over real OS threads (all interleavings of the steps; thread-locals behave as in production); the threads share one mapper, one mapper-with-index, one parsed cache and one mapping; {} thread configurations: all {} ordered pairs of the 16 scripts x 3 steps{}; a scheduling point before every API call and every iterator step; oracle: every thread observes exactly what its script observes alone. states = schedules (complete executions); transitions = steps executed; distinct = distinct (configuration, schedule count)", table.len(), nconf, OPS.len() * OPS.len(), if t { ", all unordered pairs x 5 steps, all triples over 6 scripts x 3 steps" } else { ", three 3-thread configurations x 2 steps" }),
+        rule: format!("type gate: Send and Sync of {} public handle / iterator / result types (run-time evaluated auto-trait table). Schedules: every configuration is explored twice, each time in a pristine subprocess: by shuttle's exhaustive DFS (tasks under shuttle's scheduler) and by a baton scheduler over real OS threads (all interleavings of the steps; thread-locals behave as in production); the threads share one mapper, one mapper-with-index, one parsed cache and one mapping; {} thread configurations: all {} ordered pairs of the 16 scripts x 3 steps{}; a scheduling point before every API call and every iterator step; oracle: every thread observes exactly what its script observes alone. History pass: back-to-back queries on one shared cache / mapper (one thread, and two OS threads taking turns) for pairs of class names that collide under ten common 32-bit fingerprints, and for a mapping of 70000 classes queried at index distances 65535 / 65536. states = schedules (complete executions); transitions = steps executed; distinct = distinct (configuration, schedule count)", table.len(), nconf, OPS.len() * OPS.len(), if t { ", all unordered pairs x 5 steps, all triples over 6 scripts x 3 steps" } else { ", three 3-thread configurations x 2 steps" }),
         bounds: json!({"scripts": OPS, "configurations": nconf, "mapping": esc(MAPPING)}),
         assumptions,
         trusted_base: vec!["rustc/std (auto traits)".into(), "shuttle 0.9.3 DFS scheduler".into()],
@@ -592,6 +744,11 @@ pub fn recheck(case: &Value) -> Vec<String> {
                 }
                 Err(_) => vec![format!("config-process-died:{}", mode)],
             }
+        }
+        "history" => {
+            let mut a = Acc::new();
+            history_pass(&mut a);
+            a.violations.keys().cloned().collect()
         }
         "free-running" => {
             // sampling: try to reproduce a few times
